@@ -220,17 +220,26 @@ def main():
                 errors.append(f"{name}: contradictory precondition / vacuous contract ({r['note']})")
 
     # ---------------------------------------------------------------- induction lemmas: schemas checked by Lean
-    lean_map = {"tree_induction": ["tree_induction", "all_nodes_below_root"], "count-of-a-singleton-mask": ["count_singleton"], "cumsum-of-nonnegatives": ["cumsum_monotone"]}
-    used_thms = sorted({t for a in assumptions if a.startswith("assumed-lemma:") for k, ts in lean_map.items() if k in a for t in ts})
-    if used_thms and not a.no_proof:
-        ok, secs, msg = check_lean(used_thms)
-        for t in used_thms:
-            results[f"{prop}/lean/{t}"] = [dict(name=f"{prop}/lean/{t}", verdict="unsat" if ok else "unknown", backend="lean", seconds=secs / len(used_thms), model=None,
-                                                reason=msg, kind="lemma", note="induction schema checked by `lean lean/Lemmas.lean`")]
-        if ok:
-            assumptions = {(("lemma schema proved in Lean 4 (lean/Lemmas.lean), instantiated by inspection: " + x[len("assumed-lemma:"):]) if x.startswith("assumed-lemma:") and any(k in x for k in lean_map) else x) for x in assumptions}
-        else:
-            errors.append("lean lemma library does not check: " + msg)
+    lean_map = {"tree_induction": ("Lemmas.lean", ["tree_induction", "all_nodes_below_root"]), "count-of-a-singleton-mask": ("Lemmas.lean", ["count_singleton"]),
+                "cumsum-of-nonnegatives": ("Lemmas.lean", ["cumsum_monotone"]), "traverse client rule": ("TraverseRule.lean", ["inv_of_reach", "traverse_rule_sound"])}
+    used_files = {}
+    for a_ in assumptions:
+        if a_.startswith("assumed-lemma:"):
+            for k, (fn_, ts) in lean_map.items():
+                if k in a_:
+                    used_files.setdefault(fn_, set()).update(ts)
+    if used_files and not a.no_proof:
+        all_ok = True
+        for fn_, ts in sorted(used_files.items()):
+            ok, secs, msg = check_lean(sorted(ts), fn_)
+            all_ok = all_ok and ok
+            for t in sorted(ts):
+                results[f"{prop}/lean/{t}"] = [dict(name=f"{prop}/lean/{t}", verdict="unsat" if ok else "unknown", backend="lean", seconds=secs / len(ts), model=None,
+                                                    reason=msg, kind="lemma", note=f"schema checked by `lean lean/{fn_}`")]
+            if not ok:
+                errors.append(f"lean lemma library lean/{fn_} does not check: " + msg)
+        if all_ok:
+            assumptions = {(("lemma schema proved in Lean 4 (lean/), instantiated by inspection: " + x[len("assumed-lemma:"):]) if x.startswith("assumed-lemma:") and any(k in x for k in lean_map) else x) for x in assumptions}
 
     # ---------------------------------------------------------------- verdicts
     base_path = os.path.join(HERE, "baseline", f"{prop}.json")
@@ -391,15 +400,15 @@ def main():
     return 0
 
 
-def check_lean(theorems):
-    """run Lean on the lemma library (cached per file content in the scratch directory); every named theorem must be in it"""
+def check_lean(theorems, fname="Lemmas.lean"):
+    """run Lean on a file of the lemma library (cached per file content in the scratch directory); every named theorem must be in it"""
     import hashlib as _h
     import shutil
     import subprocess
 
-    path = os.path.join(HERE, "lean", "Lemmas.lean")
+    path = os.path.join(HERE, "lean", fname)
     if not os.path.exists(path):
-        return False, 0.0, "lean/Lemmas.lean missing"
+        return False, 0.0, f"lean/{fname} missing"
     src = open(path).read()
     missing = [t for t in theorems if f"theorem {t} " not in src and f"theorem {t}\n" not in src]
     if missing:
